@@ -624,16 +624,18 @@ func (vm *VM) nextCall() bool {
 			}
 		}
 		if i >= 0 {
+			vm.calls = vm.calls[:i]
+			vm.fp = call.fp
 			if call.cl.fn != nil {
-				vm.calls = vm.calls[:i]
-				vm.fp = call.fp
 				vm.pc = call.pc
 				vm.fn = call.cl.fn
 				vm.vars = call.cl.vars
 				vm.renderer = call.renderer
 				return true
 			}
-			vm.fp = call.fp
+			// A deferred native function is called. If it panics, the panic
+			// is handled as the panic of a function called by the function
+			// that deferred it (see convertPanic).
 			vm.callNative(call.cl.Native(), call.numVariadic, StackShift{}, false)
 		}
 	}
